@@ -58,3 +58,159 @@ SPECS['get_quantiles_labels'] = FunctionSpec(qual='get_quantiles_labels', file=F
     requires=lambda o: orders_ok(o['features'], o['values_orders'], o['str_nan']), ensures=gql_post,
     locals={'quantiles_to_labels': TAB, 'labels_to_quantiles': TAB, 'quantiles': LVAL, 'labels': LVAL},
     loops={0: LoopSpec(inv=gql_inv)})
+
+
+# ------------------------------------------------------------------------------------------------ convert_to_labels
+from pyvc.engine import Truthy
+def base_list(vo, nan, f):
+    q = L(DVG.get(vo, f)); return If(Has(q, nan), lv.Rm(q, nan), q)
+def named(vo, nan, quant, f):
+    """leaders of the label order of f before missing values are put back"""
+    return If(Has(quant, f), GetLabels(L(DVG.get(vo, f)), nan), base_list(vo, nan, f))
+def final_list(vo, nan, quant, dropna, f):
+    return If(And(Not(dropna), Has(L(DVG.get(vo, f)), nan)), lv.App(named(vo, nan, quant, f), lv.One(nan)), named(vo, nan, quant, f))
+def is_order(g, leaders):
+    """g is the GroupedList made of `leaders`, each one alone in its group"""
+    v = Const('v_io', Val)
+    return And(lv.Ext(L(g), leaders), WF(g), ForAll([v], Implies(Has(leaders, v), grp(g, v) == lv.One(v)), patterns=[grp(g, v)]))
+
+def ctl_req(o):
+    f = Const('f_cr', Val); q = o['quantitative_features']
+    return And(orders_ok(o['features'], o['values_orders'], o['str_nan']), Nodup(q),
+               ForAll([f], Implies(Has(q, f), And(Has(o['features'], f), Truthy(f))), patterns=[Has(q, f)]))
+
+def ctl_inv0(o, v, k):
+    """first k quantitative features renamed"""
+    feats, vo, nan, quant = o['features'], o['values_orders'], o['str_nan'], o['quantitative_features']; f = Const('f_c0', Val); lo_ = v['labels_orders']
+    return And(DVG.keys(lo_) == feats,
+               ForAll([f], Implies(Has(feats, f), is_order(DVG.get(lo_, f), If(Has(lv.Take(quant, k), f), named(vo, nan, quant, f), base_list(vo, nan, f)))), patterns=[Has(feats, f)]),
+               tables_hold(o, v))
+def tables_hold(o, v):
+    vo, nan, quant = o['values_orders'], o['str_nan'], o['quantitative_features']; f = Const('f_th', Val); t = v['quantiles_labels']
+    return ForAll([f], Implies(Has(quant, f), And(TAB.has(t, f), *table_parts(vo, nan, f, TAB.get(t, f), TAB.get(t, f))[0:1], table_parts(vo, nan, f, TAB.get(t, f), TAB.get(t, f))[2])), patterns=[Has(quant, f)])
+
+def ctl_inv1(o, v, k):
+    """missing-value marker appended to the first k features that have it"""
+    feats, vo, nan, quant, dropna = o['features'], o['values_orders'], o['str_nan'], o['quantitative_features'], o['dropna']; j = Int('j_c1'); lo_ = v['labels_orders']
+    return And(DVG.keys(lo_) == feats,
+               ForAll([j], Implies(And(0 <= j, j < Len(feats)), is_order(DVG.get(lo_, At(feats, j)), If(j < k, final_list(vo, nan, quant, dropna, At(feats, j)), named(vo, nan, quant, At(feats, j))))), patterns=[At(feats, j)]))
+
+def ctl_post(o, n, r):
+    feats, vo, nan, quant, dropna = o['features'], o['values_orders'], o['str_nan'], o['quantitative_features'], o['dropna']; f = Const('f_cp', Val)
+    return [('one_label_order_per_feature', DVG.keys(r) == feats),
+            ('leaders_in_the_same_order_labels_for_quantitative_features_missing_marker_last_iff_kept',
+             ForAll([f], Implies(Has(feats, f), is_order(DVG.get(r, f), final_list(vo, nan, quant, dropna, f))), patterns=[Has(feats, f)]))]
+
+SPECS['get_quantiles_labels@assumed'] = None
+_g = _copy.copy(SPECS['get_quantiles_labels']); del SPECS['get_quantiles_labels@assumed']
+SPECS['convert_to_labels'] = FunctionSpec(qual='convert_to_labels', file=FILE,
+    params=[('features', LVAL), ('quantitative_features', LVAL), ('values_orders', DVG), ('str_nan', VAL), ('dropna', BOOL)], defaults={'dropna': True}, returns=DVG,
+    requires=ctl_req, ensures=ctl_post, locals={'labels_orders': DVG, 'quantiles_labels': TAB, '_': TAB, 'order': GL},
+    loops={0: LoopSpec(inv=ctl_inv0), 1: LoopSpec(inv=ctl_inv1)})
+
+
+# ------------------------------------------------------------------------------------------------ convert_to_values
+from z3 import Function, BoolSort, IntSort
+from pyvc import discharge
+DVL = G.DVL
+for k in ('GroupedList.group_list',):
+    c = _copy.copy(G.SPECS[k]); c.pure = True; c.note = 'ASSUMED here, proved in contracts.grouped_list'; SPECS[k] = c
+MaxOf = Function('MaxOf', LVAL.sort(), Val)
+RawV = Function('RawV', LVAL.sort(), Val, BoolSort(), Val, Val)                               # raw value behind a label
+RawList = Function('RawList', LVAL.sort(), Val, BoolSort(), LVAL.sort(), LVAL.sort())         # raw values of a list of labels (q: raw leaders of the feature at entry)
+_q, _m = Const('q_rl', LVAL.sort()), Const('m_rl', LVAL.sort()); _nan = Const('nan_rl', Val); _b = Const('b_rl', BoolSort()); _i = Int('i_rl'); _d = Const('d_rl', Val)
+discharge.EXTRA_AXIOMS += [
+    # d itself for a qualitative feature; for a quantitative one the quantile whose label is d (the missing marker stands for itself)
+    ForAll([_q, _nan, _b, _d], RawV(_q, _nan, _b, _d) == If(_b, If(_d == _nan, _nan, At(_q, Idx(GetLabels(_q, _nan), _d))), _d), patterns=[RawV(_q, _nan, _b, _d)]),
+    ForAll([_q, _nan, _b, _m], Len(RawList(_q, _nan, _b, _m)) == Len(_m), patterns=[RawList(_q, _nan, _b, _m)]),
+    ForAll([_q, _nan, _b, _m, _i], Implies(And(0 <= _i, _i < Len(_m)), At(RawList(_q, _nan, _b, _m), _i) == RawV(_q, _nan, _b, At(_m, _i))), patterns=[At(RawList(_q, _nan, _b, _m), _i)]),
+    ForAll([_m], Implies(Len(_m) > 0, Has(_m, MaxOf(_m))), patterns=[MaxOf(_m)]),          # the ASSUMED contract of max(): an element of the list
+]
+SPECS['max'] = FunctionSpec(qual='max', file=FILE, params=[('values', LVAL)], returns=VAL, pure=True, requires=lambda o: Len(o['values']) > 0,
+    ensures=lambda o, n, r: [('def', r == MaxOf(o['values'])), ('member', Has(o['values'], r))], note='ASSUMED builtin max over a non-empty list: one of its elements (the largest for the order of the values)')
+
+def NoNan(s, nan): return If(Has(s, nan), lv.Rm(s, nan), s)
+def is_label(q, nan, isq, x): return If(isq, Or(Has(GetLabels(q, nan), x), And(x == nan, Has(q, nan))), Has(q, x))
+
+class Feat:
+    """everything about one feature f: its raw order at entry g0, its label order LO, and the spec of the regrouping"""
+    def __init__(s, o, f):
+        s.nan = o['str_nan']; s.isq = Has(o['quantitative_features'], f); s.g0 = DVG.get(o['values_orders'], f); s.q = L(s.g0); s.LO = DVG.get(o['label_orders'], f); s.keys = K(s.LO)
+    def members(s, j): return grp(s.LO, At(s.keys, j))
+    def R(s, j): return RawList(s.q, s.nan, s.isq, s.members(j))
+    def kept(s, j):
+        w = NoNan(s.R(j), s.nan); return If(s.isq, If(Len(w) > 0, MaxOf(w), At(s.R(j), 0)), At(s.keys, j))
+    def rng(s, j, i, a, b): return And(a <= j, j < b, 0 <= i, i < Len(s.members(j)))
+    def state(s, cur, k):
+        """cur = order of the feature after the first k label groups were written back on the raw values"""
+        j, i = Int('j_st'), Int('i_st'); x = Const('x_st', Val); n = Len(s.keys)
+        return [('wf', WF(cur)), ('no_value_lost', G.same_members_except(s.g0, cur)),
+                ('leaders_only_removed', ForAll([x], Implies(Has(L(cur), x), Has(L(s.g0), x)), patterns=[Has(L(cur), x)])),
+                ('done_groups_led_by_kept', ForAll([j], Implies(And(0 <= j, j < k), Has(L(cur), s.kept(j))), patterns=[At(s.keys, j)])),
+                ('done_groups_hold_the_members_of_their_raw_values', ForAll([j, i, x], Implies(And(s.rng(j, i, 0, k), Has(grp(s.g0, At(s.R(j), i)), x)), Has(grp(cur, s.kept(j)), x)), patterns=[Has(grp(s.g0, At(s.R(j), i)), x)])),
+                ('done_groups_other_raw_values_no_longer_lead', ForAll([j, i], Implies(And(s.rng(j, i, 0, k), At(s.R(j), i) != s.kept(j)), Not(Has(L(cur), At(s.R(j), i)))), patterns=[At(s.R(j), i)])),
+                ('pending_groups_untouched', ForAll([j, i], Implies(s.rng(j, i, k, n), And(Has(L(cur), At(s.R(j), i)), grp(cur, At(s.R(j), i)) == grp(s.g0, At(s.R(j), i)))), patterns=[At(s.R(j), i), At(s.members(j), i)]))]
+    def facts(s):
+        """facts about the spec functions of this feature (ghost lemmas proved from the precondition)"""
+        j, i, j2, i2 = Int('j_fa'), Int('i_fa'), Int('j_fb'), Int('i_fb'); n = Len(s.keys)
+        return [('key_is_a_member_of_its_group', ForAll([j], Implies(And(0 <= j, j < n), And(Has(s.members(j), At(s.keys, j)), Len(s.R(j)) > 0)), patterns=[At(s.keys, j)])),
+                ('raw_value_of_a_qualitative_label_is_the_label', Implies(Not(s.isq), ForAll([j, i], Implies(s.rng(j, i, 0, n), At(s.R(j), i) == At(s.members(j), i)), patterns=[At(s.R(j), i), At(s.members(j), i)]))),
+                ('raw_values_are_leaders', ForAll([j, i], Implies(s.rng(j, i, 0, n), Has(s.q, At(s.R(j), i))), patterns=[At(s.R(j), i)])),
+                ('raw_values_pairwise_distinct', ForAll([j, i, j2, i2], Implies(And(s.rng(j, i, 0, n), s.rng(j2, i2, 0, n), Or(j != j2, i != i2)), At(s.R(j), i) != At(s.R(j2), i2)),
+                                                        patterns=[MultiPattern(At(s.R(j), i), At(s.R(j2), i2))])),
+                ('kept_is_one_of_its_group', ForAll([j], Implies(And(0 <= j, j < n), Has(s.R(j), s.kept(j))), patterns=[At(s.keys, j)]))]
+
+def ctv_req(o):
+    f = Const('f_vr', Val); kk = Const('k_vr', Val); i = Int('i_vr'); q = o['quantitative_features']; feats = o['features']; vo, lo_, nan = o['values_orders'], o['label_orders'], o['str_nan']
+    LOf = DVG.get(lo_, f)
+    return And(orders_ok(feats, vo, nan), Nodup(q), ForAll([f], Implies(Has(q, f), And(Has(feats, f), Truthy(f))), patterns=[Has(q, f)]),
+               ForAll([f], Implies(Has(feats, f), And(DVG.has(lo_, f), WF(DVG.get(lo_, f)))), patterns=[Has(feats, f)]),
+               # every member of a label group is the label of a leader of the feature (label orders are made by convert_to_labels and regrouped)
+               ForAll([f, kk, i], Implies(And(Has(feats, f), Has(K(LOf), kk), 0 <= i, i < Len(grp(LOf, kk))), is_label(L(DVG.get(vo, f)), nan, Has(q, f), At(grp(LOf, kk), i))), patterns=[MultiPattern(Has(feats, f), At(grp(LOf, kk), i))]))
+
+def entry_lemmas(o):
+    f = Const('f_el', Val); out = []
+    for label, g in Feat(o, f).facts():
+        out.append((label, ForAll([f], Implies(Has(o['features'], f), g), patterns=[Has(o['features'], f)])))
+    return out
+
+def converted(o, f, new_g):
+    F_ = Feat(o, f); return And(*[g for _, g in F_.state(new_g, Len(F_.keys))])
+
+def ctv_outer(o, v, k):
+    feats = o['features']; vo0 = o['values_orders']; vo = v['values_orders']; j = Int('j_vo'); f = Const('f_vo', Val)
+    return And(DVG.keys(vo) == DVG.keys(vo0),
+               ForAll([j], Implies(And(0 <= j, j < k), converted(o, At(feats, j), DVG.get(vo, At(feats, j)))), patterns=[At(feats, j)]),
+               ForAll([f], Implies(Not(Has(lv.Take(feats, k), f)), DVG.get(vo, f) == DVG.get(vo0, f)), patterns=[DVG.get(vo, f)]),
+               l2q_hold(o, v))
+def l2q_hold(o, v):
+    vo, nan, quant = o['values_orders'], o['str_nan'], o['quantitative_features']; f = Const('f_lq', Val)
+    if 'labels_to_quantiles' not in v: return BoolVal(True)
+    t = v['labels_to_quantiles']; parts = lambda f: table_parts(vo, nan, f, TAB.get(t, f), TAB.get(t, f))
+    return Implies(Len(quant) > 0, ForAll([f], Implies(Has(quant, f), And(TAB.has(t, f), parts(f)[1], parts(f)[3])), patterns=[Has(quant, f)]))
+
+def ctv_inner(o, v, k):
+    f = v['feature']; F_ = Feat(o, f); feats = o['features']; vo0 = o['values_orders']; vo = v['values_orders']; e = o['$entry']; g = Const('g_vi', Val)
+    return And(Has(feats, f), v['order'] == DVG.get(vo, f), *[gl for _, gl in F_.state(DVG.get(vo, f), k)], DVG.keys(vo) == DVG.keys(vo0),
+               ForAll([g], Implies(g != f, DVG.get(vo, g) == DVG.get(e['values_orders'], g)), patterns=[DVG.get(vo, g)]), l2q_hold(o, v))
+
+def inner_body_lemmas(o, v, k):
+    f = v['feature']; F_ = Feat(o, f); cur = DVG.get(v['values_orders'], f)
+    return [('key_is_a_member_of_its_group', Has(F_.members(k), At(F_.keys, k))),
+            ('kept_of_this_group_still_leads', Has(L(cur), F_.kept(k)))]
+
+def ctv_post(o, n, r):
+    feats = o['features']; f = Const('f_vp', Val); vo0 = o['values_orders']
+    return [('same_features', DVG.keys(r) == DVG.keys(vo0)), ('result_is_the_updated_values_orders', r == n['values_orders']),
+            ('every_label_group_written_back_on_the_raw_values', ForAll([f], Implies(Has(feats, f), converted(o, f, DVG.get(r, f))), patterns=[Has(feats, f)])),
+            ('other_features_untouched', ForAll([f], Implies(Not(Has(feats, f)), DVG.get(r, f) == DVG.get(vo0, f)), patterns=[DVG.get(r, f)]))]
+
+def gtd_lemmas(o, v):
+    """right after  group_to_discard = [labels_to_quantiles[feature][l] if l != str_nan else str_nan for l in group_to_discard]  (quantitative branch)"""
+    f = v['feature']; F_ = Feat(o, f); m = grp(F_.LO, v['kept_value'])
+    return [('is_the_raw_list_of_the_label_group', lv.Ext(v['group_to_discard'], RawList(F_.q, F_.nan, BoolVal(True), m))), ('distinct', Nodup(v['group_to_discard']))]
+
+SPECS['convert_to_values'] = FunctionSpec(qual='convert_to_values', file=FILE,
+    params=[('features', LVAL), ('quantitative_features', LVAL), ('values_orders', DVG), ('label_orders', DVG), ('str_nan', VAL)], returns=DVG, modifies=['values_orders'],
+    requires=ctv_req, ensures=ctv_post, locals={'labels_to_quantiles': TAB, '_': TAB, 'order': GL, 'group_to_discard': LVAL, 'which_to_keep': LVAL},
+    lemmas={'group_to_discard': gtd_lemmas, '$entry': entry_lemmas}, loops={0: LoopSpec(inv=ctv_outer), 1: LoopSpec(inv=ctv_inner, body_lemmas=inner_body_lemmas)})
